@@ -1,6 +1,8 @@
 package checker
 
 import (
+	"strings"
+
 	"github.com/jsightapi/jsight-schema-core/bytes"
 	"github.com/jsightapi/jsight-schema-core/errs"
 	"github.com/jsightapi/jsight-schema-core/json"
@@ -301,10 +303,15 @@ func (c *checkSchema) collectAllowedJsonTypes(node ischema.Node, ss map[string]i
 	}
 
 	for _, typeName := range typesConstraint.(*constraint.TypesList).Names() {
-		if _, ok := c.foundTypeNames[typeName]; ok {
-			panic(errs.ErrImpossibleToDetermineTheJsonTypeDueToRecursion.F(typeName))
+		// An unnamed type (an inline rule-set of an "or") is only reachable from the
+		// node it is written on, so every cycle passes through a named type; the
+		// generated name is a heap address and must not end up in the message.
+		if !strings.HasPrefix(typeName, "#") {
+			if _, ok := c.foundTypeNames[typeName]; ok {
+				panic(errs.ErrImpossibleToDetermineTheJsonTypeDueToRecursion.F(typeName))
+			}
+			c.foundTypeNames[typeName] = struct{}{}
 		}
-		c.foundTypeNames[typeName] = struct{}{}
 		c.collectAllowedJsonTypes(getType(typeName, c.rootSchema, ss).RootNode(), ss) // can panic
 	}
 }
